@@ -16,6 +16,11 @@ def PendCleanup (s : St) (k : Kind) : Prop :=
   | .exclActs _ _ :: _ => ∃ tl, s.wq = Cmd.cleanup k :: tl
   | .flush :: _ => ∃ tl, s.wq = Cmd.cleanup k :: tl
   | .batch (Cmd.cleanup k' :: _) :: _ => k' = k
+  -- a runner started in-line by an exclusive body: its prelude (collector, poll) runs over the body's queued clean-up
+  | .runnerStart _ _ :: _ => ∃ tl, s.wq = Cmd.cleanup k :: tl
+  | .gc :: _ => ∃ tl, s.wq = Cmd.cleanup k :: tl
+  | .despawnWork _ :: _ => ∃ tl, s.wq = Cmd.cleanup k :: tl
+  | .poll :: _ => ∃ tl, s.wq = Cmd.cleanup k :: tl
   | _ => False
 
 def flagOf : TrkId → St → Bool
@@ -38,6 +43,10 @@ theorem noPendCleanup_top {s : St} {g : Frame} {rest : List Frame} (hst : s.stac
   cases g <;> simp only [Frame.resting] at hr <;> try (intro h; exact h)
   case flush => rintro ⟨tl, h⟩; rw [hw] at h; cases h
   case exclActs => rintro ⟨tl, h⟩; rw [hw] at h; cases h
+  case runnerStart => rintro ⟨tl, h⟩; rw [hw] at h; cases h
+  case gc => rintro ⟨tl, h⟩; rw [hw] at h; cases h
+  case despawnWork => rintro ⟨tl, h⟩; rw [hw] at h; cases h
+  case poll => rintro ⟨tl, h⟩; rw [hw] at h; cases h
   case batch cs =>
     cases cs with
     | nil => intro h; exact h
@@ -66,11 +75,28 @@ theorem used_of_allOK {s : St} (hall : allOK s.stack) (hw : s.wq = []) : Used s 
 theorem used_of_top {s : St} {g : Frame} {rest : List Frame} (hst : s.stack = g :: rest)
     (hg : match g with
       | .bodyActs _ _ _ _ => False | .cleanup _ => False | .exclActs _ _ => False | .flush => False | .batch _ => False
+      | .runnerStart _ _ => False | .gc => False | .despawnWork _ => False | .poll => False
       | _ => True) : Used s := by
   intro k T hp _
   exfalso
   unfold PendCleanup at hp; rw [hst] at hp
   cases g <;> first | exact hp | exact hg
+
+/-- A frame of a runner's prelude (or the final flush) over a world queue without clean-up commands. -/
+theorem used_of_top_clean {s : St} {g : Frame} {rest : List Frame} (hst : s.stack = g :: rest)
+    (hg : match g with
+      | .runnerStart _ _ => True | .gc => True | .despawnWork _ => True | .poll => True | .flush => True | .exclActs _ _ => True
+      | _ => False) (hw : cleanList s.wq) : Used s := by
+  intro k T hp _
+  exfalso
+  unfold PendCleanup at hp; rw [hst] at hp
+  cases g <;> first
+    | exact hg
+    | (obtain ⟨tl, h⟩ := hp
+       have := hw (Cmd.cleanup k) (by rw [h]; simp)
+       simp [isCleanup] at this)
+
+macro "wqnil" : tactic => `(tactic| (intro c hc; simp_all [St.push, St.emit, runFrame, doRunnerStart, doAfterBody, doGc, doDespawnWork]))
 
 /-- Top frame `flush` over a world queue without cleanup commands. -/
 theorem used_of_flush_clean {s : St} {rest : List Frame} (hst : s.stack = .flush :: rest) (hw : cleanList s.wq) : Used s := by
@@ -123,6 +149,31 @@ namespace Cobweb
 theorem cleanList_head_not_cleanup {cs tl : List Cmd} {k : Kind} (h : cleanList cs) (he : cs = Cmd.cleanup k :: tl) : False := by
   have := h (Cmd.cleanup k) (by rw [he]; simp)
   simp [isCleanup] at this
+
+/-- Frames on which a pending clean-up is read off the head of the world queue. -/
+def Frame.queueHead : Frame → Prop
+  | .runnerStart _ _ => True | .gc => True | .despawnWork _ => True | .poll => True | .flush => True | .exclActs _ _ => True
+  | _ => False
+
+theorem pendCleanup_queueHead {s : St} {f : Frame} {rest : List Frame} (hs : s.stack = f :: rest) (hf : f.queueHead) (k : Kind) :
+    PendCleanup s k ↔ ∃ tl, s.wq = Cmd.cleanup k :: tl := by
+  unfold PendCleanup; rw [hs]
+  cases f <;> first | exact Iff.rfl | exact absurd hf (by simp [Frame.queueHead])
+
+/-- The same flags and the same world queue under another queue-head frame. -/
+theorem used_same_top {s s' : St} {f g : Frame} {rest rest' : List Frame} (hu : Used s) (hs : s.stack = f :: rest) (hf : f.queueHead)
+    (hst : s'.stack = g :: rest') (hg : g.queueHead) (hwq : s'.wq = s.wq) (hfl : ∀ T, flagOf T s' = flagOf T s) : Used s' := by
+  intro k T hpc hus
+  rw [hfl T]
+  refine hu k T ?_ hus
+  rw [pendCleanup_queueHead hs hf]
+  rw [pendCleanup_queueHead hst hg, hwq] at hpc
+  exact hpc
+
+theorem leads_top {rest : List Frame} (h : Leads rest) : ∃ g r, rest = g :: r ∧ g.queueHead := by
+  cases rest with
+  | nil => exact absurd h (by simp [Leads])
+  | cons g r => exact ⟨g, r, rfl, by cases g <;> simp [Leads] at h <;> trivial⟩
 
 /-- **Between setup and cleanup the used trackers are flagged** — preserved by every frame. -/
 theorem used_runFrame (p : Prog) (hh : Hist) {s : St} {f : Frame} {rest : List Frame} (hf : FlagInv s) (hp : PendD s)
@@ -193,54 +244,45 @@ theorem used_runFrame (p : Prog) (hh : Hist) {s : St} {f : Frame} {rest : List F
       cases T <;> exact this
   | exclActs sys i =>
     simp only [runFrame, doExclActs]
-    rcases htop with ⟨k, tl, hwq, _, _⟩ | ⟨_, hcl⟩
-    · have hold : ∀ T, uses T k = true → flagOf T s = true := fun T h => hu k T (by unfold PendCleanup; rw [hs]; exact ⟨tl, hwq⟩) h
-      -- whatever the body does next, the same cleanup stays first in the world queue and the flags stay
-      have key : ∀ (s' : St) (g : Frame) (rest' : List Frame) (tl' : List Cmd), s'.stack = g :: rest' →
-          (g = .flush ∨ ∃ j, g = .exclActs sys j) → s'.wq = Cmd.cleanup k :: tl' → (∀ T, flagOf T s' = flagOf T s) → Used s' := by
-        intro s' g rest' tl' hst' hg hwq' hfl k' T hpc hus
-        have hk : k' = k := by
-          unfold PendCleanup at hpc; rw [hst'] at hpc
-          rcases hg with rfl | ⟨j, rfl⟩
-          all_goals
-            obtain ⟨tl2, h2⟩ := hpc
-            rw [hwq'] at h2
-            simp only [List.cons.injEq, Cmd.cleanup.injEq] at h2
-            exact h2.1.symm
-        subst hk
-        rw [hfl T]; exact hold T hus
-      split
-      · exact key _ .flush rest tl (by simp [St.push, St.emit]) (Or.inl rfl) (by simpa [St.push, St.emit] using hwq) (fun T => by cases T <;> rfl)
-      · rename_i a _
-        have hwq' : (enqueue ({ s with stack := rest } : St) a).1.wq ++ (enqueue ({ s with stack := rest } : St) a).2 =
-            Cmd.cleanup k :: (tl ++ (enqueue ({ s with stack := rest } : St) a).2) := by
-          rw [enqueue_wq]; simp [hwq]
-        have hfl : ∀ T, flagOf T (enqueue ({ s with stack := rest } : St) a).1 = flagOf T s := fun T => by
-          rw [flagOf_of_Fl (Fl_enqueue ({ s with stack := rest } : St) a) T]; cases T <;> rfl
-        split
-        · exact key _ .flush (Frame.exclActs sys (i + 1) :: rest) _ (by simp [St.push]) (Or.inl rfl) (by simpa [St.push] using hwq')
-            (fun T => by rw [← hfl T]; cases T <;> rfl)
-        · exact key _ (.exclActs sys (i + 1)) rest _ (by simp [St.push]) (Or.inr ⟨_, rfl⟩) (by simpa [St.push] using hwq')
-            (fun T => by rw [← hfl T]; cases T <;> rfl)
-    · -- the cleanup has already run (a mid-body flush): nothing is pending whatever the body queues
-      have nopend : ∀ (s' : St) (g : Frame) (rest' : List Frame), s'.stack = g :: rest' →
-          (g = .flush ∨ ∃ j, g = .exclActs sys j) → cleanList s'.wq → Used s' := by
-        intro s' g rest' hst' hg hcl' k' T hpc _
-        exfalso
-        unfold PendCleanup at hpc; rw [hst'] at hpc
-        rcases hg with rfl | ⟨j, rfl⟩
-        all_goals
-          obtain ⟨tl2, h2⟩ := hpc
-          have := hcl' (Cmd.cleanup k') (by rw [h2]; simp)
+    split
+    · exact used_same_top hu hs trivial (g := .flush) (rest' := rest) (by simp [St.push, St.emit]) trivial (by simp [St.push, St.emit])
+        (fun T => by cases T <;> rfl)
+    · rename_i t _
+      exact used_same_top hu hs trivial (g := .runnerStart t .plain) (rest' := .exclActs sys (i + 1) :: rest) (by simp [St.push]) trivial
+        (by simp [St.push]) (fun T => by cases T <;> rfl)
+    · rename_i a _ _
+      -- the body queues more commands behind whatever heads the queue
+      have hfl : ∀ T, flagOf T (enqueue ({ s with stack := rest } : St) a).1 = flagOf T s := fun T => by
+        rw [flagOf_of_Fl (Fl_enqueue ({ s with stack := rest } : St) a) T]; cases T <;> rfl
+      have key : ∀ (fs : List Frame) (g : Frame) (r' : List Frame), fs ++ rest = g :: r' → g.queueHead →
+          Used (({ (enqueue ({ s with stack := rest } : St) a).1 with
+            wq := (enqueue ({ s with stack := rest } : St) a).1.wq ++ (enqueue ({ s with stack := rest } : St) a).2 } : St).push fs) := by
+        intro fs g r' hfs hg k T hpc hus
+        have hst' : (({ (enqueue ({ s with stack := rest } : St) a).1 with
+            wq := (enqueue ({ s with stack := rest } : St) a).1.wq ++ (enqueue ({ s with stack := rest } : St) a).2 } : St).push fs).stack = g :: r' := by
+          simp [St.push, hfs]
+        rw [pendCleanup_queueHead hst' hg] at hpc
+        obtain ⟨tl', h'⟩ := hpc
+        simp only [St.push, enqueue_wq] at h'
+        have hflT : flagOf T (({ (enqueue ({ s with stack := rest } : St) a).1 with
+            wq := (enqueue ({ s with stack := rest } : St) a).1.wq ++ (enqueue ({ s with stack := rest } : St) a).2 } : St).push fs) = flagOf T s := by
+          rw [← hfl T]; cases T <;> rfl
+        rw [hflT]
+        refine hu k T ?_ hus
+        rw [pendCleanup_queueHead hs trivial]
+        rcases htop with ⟨k0, tl0, hwq0, _, _⟩ | ⟨_, hcl⟩
+        · have hwq0' : ({ s with stack := rest } : St).wq = Cmd.cleanup k0 :: tl0 := hwq0
+          rw [hwq0'] at h'
+          simp only [List.cons_append, List.cons.injEq, Cmd.cleanup.injEq] at h'
+          exact ⟨tl0, by rw [← h'.1]; exact hwq0⟩
+        · exfalso
+          have hcl' : cleanList (({ s with stack := rest } : St).wq ++ (enqueue ({ s with stack := rest } : St) a).2) :=
+            cleanList_append hcl (enqueue_clean _ a)
+          have := hcl' (Cmd.cleanup k) (by rw [h']; simp)
           simp [isCleanup] at this
       split
-      · exact nopend _ .flush rest (by simp [St.push, St.emit]) (Or.inl rfl) (by simpa [St.push, St.emit] using hcl)
-      · rename_i a _
-        have hcl' : cleanList ((enqueue ({ s with stack := rest } : St) a).1.wq ++ (enqueue ({ s with stack := rest } : St) a).2) := by
-          rw [enqueue_wq]; exact cleanList_append hcl (enqueue_clean _ a)
-        split
-        · exact nopend _ .flush (Frame.exclActs sys (i + 1) :: rest) (by simp [St.push]) (Or.inl rfl) (by simpa [St.push] using hcl')
-        · exact nopend _ (.exclActs sys (i + 1)) rest (by simp [St.push]) (Or.inr ⟨_, rfl⟩) (by simpa [St.push] using hcl')
+      · exact key [.flush, .exclActs sys (i + 1)] .flush (.exclActs sys (i + 1) :: rest) (by simp) trivial
+      · exact key [.exclActs sys (i + 1)] (.exclActs sys (i + 1)) rest (by simp) trivial
   | topActs t i =>
     obtain ⟨_, hcl⟩ := htop
     simp only [runFrame, doTopActs]
@@ -262,7 +304,8 @@ theorem used_runFrame (p : Prog) (hh : Hist) {s : St} {f : Frame} {rest : List F
     obtain ⟨_, hw⟩ := htop
     exact hpop _ (by simp [runFrame]) (by simp [runFrame]; exact hw)
   | runnerStart sys k =>
-    exact used_of_top (g := .gc) (rest := .poll :: .runnerLookup sys k s.counter :: rest) (by simp [runFrame, doRunnerStart, St.push]) trivial
+    exact used_same_top hu hs trivial (g := .gc) (rest' := .poll :: .runnerLookup sys k s.counter :: rest)
+      (by simp [runFrame, doRunnerStart, St.push]) trivial (by simp [runFrame, doRunnerStart, St.push, St.emit]) (fun T => by cases T <;> rfl)
   | runnerLookup sys k idx =>
     obtain ⟨hidle, hw⟩ := htop
     simp only [runFrame, doRunnerLookup]
@@ -312,23 +355,26 @@ theorem used_runFrame (p : Prog) (hh : Hist) {s : St} {f : Frame} {rest : List F
               have := (hsb T).trans (hset T hus)
               cases T <;> exact this
   | afterBody sys idx =>
-    exact used_of_top (g := .gc) (rest := .reinsert sys idx :: rest) (by simp [runFrame, doAfterBody, St.push]) trivial
+    obtain ⟨_, hw⟩ := htop
+    exact used_of_top_clean (g := .gc) (rest := .reinsert sys idx :: rest) (by simp [runFrame, doAfterBody, St.push]) trivial (by wqnil)
   | reinsert sys idx =>
+    obtain ⟨_, hw⟩ := htop
     simp only [runFrame, doReinsert]
     split
-    · exact used_of_top (g := .poll) (rest := .replayTake sys idx :: rest) (by simp [St.push, St.emit]) trivial
-    · split <;> exact used_of_top (g := .despawnWork [(sys, false)]) (rest := .gc :: .poll :: .replayTake sys idx :: rest)
-        (by simp [St.push, St.emit]) trivial
-    · split <;> exact used_of_top (g := .gc) (rest := .poll :: .replayTake sys idx :: rest) (by simp [St.push, St.emit]) trivial
+    · exact used_of_top_clean (g := .poll) (rest := .replayTake sys idx :: rest) (by simp [St.push, St.emit]) trivial (by wqnil)
+    · split <;> exact used_of_top_clean (g := .despawnWork [(sys, false)]) (rest := .gc :: .poll :: .replayTake sys idx :: rest)
+        (by simp [St.push, St.emit]) trivial (by wqnil)
+    · split <;> exact used_of_top_clean (g := .gc) (rest := .poll :: .replayTake sys idx :: rest) (by simp [St.push, St.emit]) trivial (by wqnil)
   | replayTake sys idx =>
     exact used_of_top (g := .replayLoop sys s.buffered [] idx) (rest := rest) (by simp [runFrame, doReplayTake, St.push]) trivial
   | replayLoop sys r kept idx =>
+    obtain ⟨_, hw⟩ := htop
     simp only [runFrame, doReplayLoop]
     split
     · exact used_of_top (g := .finish sys idx) (rest := rest) (by simp [St.push]) trivial
     · rename_i b bs
       split
-      · exact used_of_top (g := .runnerStart b.1 b.2) (rest := .replayLoop sys bs kept idx :: rest) (by simp [St.push, St.emit]) trivial
+      · exact used_of_top_clean (g := .runnerStart b.1 b.2) (rest := .replayLoop sys bs kept idx :: rest) (by simp [St.push, St.emit]) trivial (by wqnil)
       · exact used_of_top (g := .replayLoop sys bs (kept ++ [b]) idx) (rest := rest) (by simp [St.push]) trivial
   | finish sys idx =>
     obtain ⟨_, hw⟩ := htop
@@ -344,29 +390,54 @@ theorem used_runFrame (p : Prog) (hh : Hist) {s : St} {f : Frame} {rest : List F
     obtain ⟨_, hw⟩ := htop
     exact hpop _ (by simp [runFrame]) (by simp [runFrame]; exact hw)
   | gc =>
-    obtain ⟨_, hw⟩ := htop
+    have hlead : Lead1 s .gc rest := by have := hf.lead; rw [hs] at this; exact this
     simp only [runFrame, doGc]
     split
-    · exact hpop _ rfl hw
-    · exact used_of_top (g := .despawnWork _) (rest := .gc :: rest) rfl trivial
+    · rcases hlead with ⟨_, hw⟩ | hl
+      · exact hpop _ rfl hw
+      · obtain ⟨g, r, hr, hg⟩ := leads_top hl
+        exact used_same_top hu hs trivial (g := g) (rest' := r) (by simpa using hr) hg rfl (fun T => by cases T <;> rfl)
+    · exact used_same_top hu hs trivial (g := .despawnWork _) (rest' := .gc :: rest) rfl trivial (by simp [St.push]) (fun T => by cases T <;> rfl)
   | despawnWork work =>
-    obtain ⟨_, hw⟩ := htop
+    have hlead : Lead1 s (.despawnWork work) rest := by have := hf.lead; rw [hs] at this; exact this
     simp only [runFrame, doDespawnWork]
     split
-    · exact hpop _ rfl hw
+    · rcases hlead with ⟨_, hw⟩ | hl
+      · exact hpop _ rfl hw
+      · obtain ⟨g, r, hr, hg⟩ := leads_top hl
+        exact used_same_top hu hs trivial (g := g) (rest' := r) (by simpa using hr) hg rfl (fun T => by cases T <;> rfl)
     · split
       · rename_i e ex work _
-        exact used_of_top (g := .despawnWork work) (rest := rest) (by simp [St.push]) trivial
+        exact used_same_top hu hs trivial (g := .despawnWork work) (rest' := rest) (by simp [St.push]) trivial (by simp [St.push])
+          (fun T => by cases T <;> simp [flagOf, St.push])
       · split
-        · exact used_of_top (g := .despawnWork _) (rest := rest) rfl trivial
-        · exact used_of_top (g := .despawnWork _) (rest := rest) rfl trivial
+        · exact used_same_top hu hs trivial (g := .despawnWork _) (rest' := rest) rfl trivial (by simp [St.push]) (fun T => by cases T <;> rfl)
+        · exact used_same_top hu hs trivial (g := .despawnWork _) (rest' := rest) rfl trivial (by simp [St.push]) (fun T => by cases T <;> rfl)
   | poll =>
-    obtain ⟨_, hw⟩ := htop
-    refine used_of_flush_clean (rest := rest) (by simp [runFrame, doPoll, St.push]) ?_
-    simp only [runFrame, doPoll, St.push]
-    have hw' : (pollDespawns (pollRemovals ({ s with stack := rest } : St)).1).1.wq = [] := by simp; exact hw
-    rw [hw']
-    exact cleanList_append (cleanList_append cleanList_nil (pollRemovals_clean _)) (pollDespawns_clean _)
+    -- the poll appends the reactions it schedules behind whatever heads the queue
+    intro k T hpc hus
+    have hst' : (runFrame p hh { s with stack := rest } .poll).stack = .flush :: rest := by simp [runFrame, doPoll, St.push]
+    rw [pendCleanup_queueHead hst' trivial] at hpc
+    obtain ⟨tl', h'⟩ := hpc
+    simp only [runFrame, doPoll, St.push, pollDespawns_wq, pollRemovals_wq] at h'
+    have hflT : flagOf T (runFrame p hh { s with stack := rest } .poll) = flagOf T s := by
+      cases T <;> simp [runFrame, doPoll, flagOf, St.push]
+    rw [hflT]
+    refine hu k T ?_ hus
+    rw [pendCleanup_queueHead hs trivial]
+    have hnew : cleanList ((pollRemovals ({ s with stack := rest } : St)).2 ++ (pollDespawns (pollRemovals ({ s with stack := rest } : St)).1).2) :=
+      cleanList_append (pollRemovals_clean _) (pollDespawns_clean _)
+    rcases htop with ⟨k0, tl0, hwq0, _, _⟩ | ⟨_, hcl⟩
+    · have hwq0' : ({ s with stack := rest } : St).wq = Cmd.cleanup k0 :: tl0 := hwq0
+      rw [hwq0'] at h'
+      simp only [List.cons_append, List.cons.injEq, Cmd.cleanup.injEq] at h'
+      exact ⟨tl0, by rw [← h'.1]; exact hwq0⟩
+    · exfalso
+      have hcl' : cleanList (({ s with stack := rest } : St).wq ++ (pollRemovals ({ s with stack := rest } : St)).2 ++
+          (pollDespawns (pollRemovals ({ s with stack := rest } : St)).1).2) := by
+        rw [List.append_assoc]; exact cleanList_append hcl hnew
+      have := hcl' (Cmd.cleanup k) (by rw [h']; simp)
+      simp [isCleanup] at this
 
 end Cobweb
 
@@ -383,16 +454,16 @@ theorem used_startTop {s : St} (hst : s.stack = []) (hw : s.wq = []) (t : Nat) (
   cases op <;> dsimp only
   case acts => exact used_of_top (g := .topActs t 0) (rest := []) (by simp [St.push, St.emit, hst]) trivial
   case wDespawn e => exact used_of_allOK (by simp [St.emit, hst]; exact allOK_nil) (by simp [St.emit, hw])
-  case wDespawnRec e => exact used_of_top (g := .despawnWork [(e, false)]) (rest := []) (by simp [St.push, St.emit, hst]) trivial
+  case wDespawnRec e => exact used_of_top_clean (g := .despawnWork [(e, false)]) (rest := []) (by simp [St.push, St.emit, hst]) trivial (by wqnil)
   case wRemove e ty => exact happly _ _ (by simp [St.emit, hst]) (by simp [St.emit, hw]) rfl
   case wInsertRaw e ty v => exact happly _ _ (by simp [St.emit, hst]) (by simp [St.emit, hw]) rfl
   case wSetParent c p =>
     split
     · exact used_of_allOK (by simp [St.emit, hst]; exact allOK_nil) (by simp [St.emit, hw])
     · exact used_of_allOK (by simp [St.emit, hst]; exact allOK_nil) (by simp [St.emit, hw])
-  case gc => exact used_of_top (g := .gc) (rest := []) (by simp [St.push, St.emit, hst]) trivial
-  case poll => exact used_of_top (g := .poll) (rest := []) (by simp [St.push, St.emit, hst]) trivial
-  case frameEnd => exact used_of_top (g := .gc) (rest := [.poll]) (by simp [St.push, St.emit, hst]) trivial
+  case gc => exact used_of_top_clean (g := .gc) (rest := []) (by simp [St.push, St.emit, hst]) trivial (by wqnil)
+  case poll => exact used_of_top_clean (g := .poll) (rest := []) (by simp [St.push, St.emit, hst]) trivial (by wqnil)
+  case frameEnd => exact used_of_top_clean (g := .gc) (rest := [.poll]) (by simp [St.push, St.emit, hst]) trivial (by wqnil)
   case clearTrackers => exact used_of_allOK (by simp [St.emit, hst]; exact allOK_nil) (by simp [St.emit, hw])
   case wSysEvent sys ty pid => exact happly _ _ (by simp [St.emit, St.fresh, hst]) (by simp [St.emit, St.fresh, hw]) rfl
   case wBroadcast ty pid => exact happly _ _ (by simp [St.emit, hst]) (by simp [St.emit, hw]) rfl
@@ -406,7 +477,7 @@ theorem used_startTop {s : St} (hst : s.stack = []) (hw : s.wq = []) (t : Nat) (
     split
     · exact used_of_allOK (by simp [St.emit, hst]; exact allOK_nil) (by simp [St.emit, hw])
     · exact used_of_allOK (by simp [St.emit, hst]; exact allOK_nil) (by simp [St.emit, hw])
-  case sigThreads a n => exact used_of_top (g := .gc) (rest := []) (by simp [St.push, St.emit, hst]) trivial
+  case sigThreads a n => exact used_of_top_clean (g := .gc) (rest := []) (by simp [St.push, St.emit, hst]) trivial (by wqnil)
 
 theorem used_tick (p : Prog) (hh : Hist) {s s' : St} (hf : FlagInv s) (hp : PendD s) (hu : Used s)
     (ht : tick p hh s = some s') : Used s' := by
